@@ -364,6 +364,29 @@ fn ev_response(out: &mut Out, reqp: &Packet, r: &mut Rng, errs: &[Value]) {
             resp.message.add_option(CoapOption::MaxAge, vec![60]);
             resp.message.payload = b"prior".to_vec();
         }
+        // builder history on the very options the error path writes: a Content-Format that was set and
+        // withdrawn, raw values (empty, several, over-long), an error applied before
+        match r.below(8) {
+            0 => {
+                resp.message.add_option(CoapOption::ContentFormat, vec![50]);
+                resp.message.clear_option(CoapOption::ContentFormat);
+            }
+            1 => resp.message.add_option(CoapOption::ContentFormat, vec![]),
+            2 => {
+                resp.message.add_option(CoapOption::ContentFormat, vec![]);
+                resp.message.add_option(CoapOption::ContentFormat, vec![]);
+            }
+            3 => {
+                resp.message.add_option(CoapOption::ContentFormat, vec![1, 2, 3]);
+                resp.message.add_option(CoapOption::ContentFormat, vec![50]);
+            }
+            4 => resp.message.set_option(CoapOption::ContentFormat, std::collections::LinkedList::new()),
+            5 => {
+                let first = r.pick(errs).clone();
+                let _ = guarded(|| req.apply_from_error(err_of(&first)));
+            }
+            _ => {}
+        }
     }
     let e = r.pick(errs).clone();
     let pre = jresp(&req.response);
